@@ -16,6 +16,7 @@ import sched_gen as G
 import c07_multi as M
 import c07_midphase as MP
 import c07_globals as GP
+import c07_notation as NT
 import c07_coq as Q
 from fractions import Fraction as F
 from math import ceil
@@ -595,6 +596,8 @@ def check(run):
     part("several-timelines", M.multi_part, 120 if quick else 1500)
     # globals whose values are patterns, set again over existing values, read by several tracks
     part("pattern-globals", GP.globals_part, 120 if quick else 1500)
+    # tracks whose event values are notation strings (Pattern.pattern / parse_notation), the same strings on several tracks / timelines
+    part("string-shorthand", NT.notation_part, 80 if quick else 1000)
     run.cov["rule"] = ("one case = one run on isobar's Timeline: a joint run of 1-6 tracks on distinct channels (random offsets/durations on a "
                        "common grid so that events coincide, scheduling-order permutations for <= 4 tracks, neighbours that finish / raise in "
                        "tolerant mode / are unscheduled) or the solo run of one of its tracks; non-trivial = joint run of >= 2 tracks with at "
@@ -604,6 +607,8 @@ def check(run):
 def replay(run, doc):
     if doc.get("part") == "multi":
         return M.replay_multi(run, doc)
+    if doc.get("part") == "notation":
+        return NT.replay_notation(run, doc)
     if doc.get("part") == "gpat":
         return GP.replay_gpat(run, doc)
     if doc.get("part") == "midphase":
